@@ -64,3 +64,15 @@ Print Assumptions C15_SE2_all_methods.
 
 Example C15_nonvacuous : supported 3 /\ se2_valid [7; -2; 3/5; 4/5] /\ (exists a b c, [1; 2; 1/2] = [a; b; c]).
 Proof. repeat split; [unfold supported; auto | exists 7, (-2), (3/5), (4/5); split; [reflexivity|lra] | eexists _, _, _; reflexivity]. Qed.
+
+(* SO3 (no ExpLogCore: exp(log q) is q only up to sign): SLERP starts at A exactly and ends at B as a transformation
+   (B or -B, the two coefficient vectors of one rotation), whenever the relative rotation A^-1 B is on the closed-form
+   branch of log and not a half turn *)
+From Manif Require Import SO3 SO3Proofs Interp_SO3.
+Theorem C15_SO3_slerp_zero eps A B : 0 < eps -> so3_valid A -> so3_valid B -> @interpolate_slerp RS (SO3 RS eps) A B 0 = Ok A.
+Proof. intros H. exact (so3_slerp_zero eps H A B). Qed.
+Theorem C15_SO3_slerp_one eps A B : 0 < eps -> so3_valid A -> so3_valid B ->
+  (forall x y z w, so3_compose RS eps (so3_inverse RS A) B = [x; y; z; w] -> eps < x * x + y * y + z * z /\ w <> 0) ->
+  @interpolate_slerp RS (SO3 RS eps) A B 1 = Ok B \/ @interpolate_slerp RS (SO3 RS eps) A B 1 = Ok (@vneg RS B).
+Proof. intros H. exact (so3_slerp_one eps H A B). Qed.
+Print Assumptions C15_SO3_slerp_one.
